@@ -505,7 +505,7 @@ pub fn main(args: &[String]) {
         let backend = if i % 2 == 0 { "dart" } else { "kotlin" };
         let mut prof = crate::c05::profile_of(backend, false);
         prof.callbacks = false;
-        let avoid = Avoid { noncustom_result_err: false, byte_slices: backend == "dart", callbacks_on_methods_with_self: true, more_zst: true, opt_unit_write: true };
+        let avoid = Avoid { noncustom_result_err: false, byte_slices: backend == "dart", callbacks_on_methods_with_self: true, more_zst: true, opt_unit_write: true, ..Default::default() };
         let m = Gen::valid_module_avoiding(&mut rng, prof, avoid);
         let src = m.rust();
         let case = format!("(c07 {backend} seed={} module={i})", a.seed);
